@@ -72,6 +72,7 @@ def gen_transform(rng, scale=0.3, toward_origin=False, dist=1.4):
 
 
 PY_PROFILES = [0.0]      # probability that a generated profile is a Python callable (set per run by generate())
+FLAT_ELECTRONS = [False]  # swarm switch: uniform electron density / temperature (caches keyed on Te can then hit)
 
 
 def gen_profile(rng, base, spread=0.5):
@@ -85,7 +86,11 @@ def gen_profile(rng, base, spread=0.5):
 def gen_dist(rng, mass, n0, t0):
     v = gen_unit(rng)
     s = rng.uniform(2e4, 2e5)
-    return {"n": gen_profile(rng, n0), "t": gen_profile(rng, t0, 0.4), "v": [round(c * s, 1) for c in v], "m": mass}
+    d = {"n": gen_profile(rng, n0), "t": gen_profile(rng, t0, 0.4), "v": [round(c * s, 1) for c in v], "m": mass}
+    if FLAT_ELECTRONS[0] and mass < 1e-3:
+        d["n"]["g"] = [0.0, 0.0, 0.0]
+        d["t"]["g"] = [0.0, 0.0, 0.0]
+    return d
 
 
 def gen_species(rng, el, ch):
@@ -278,7 +283,7 @@ def gen_ray(rng, spec):
         ln = rng.choice(lines)
         w = wavelength_of(ln["el"], ln["ch"], ln["tr"])
         return {"o": o, "d": d, "min": round(w - 0.6, 4), "max": round(w + 0.6, 4), "bins": 24}
-    return {"o": o, "d": d, "min": 280.0, "max": 700.0, "bins": 21}
+    return {"o": o, "d": d, "min": 280.0, "max": rng.choice([700.0, 700.0, 560.0]), "bins": 21}
 
 
 def comp_merge(comp, x):
@@ -646,6 +651,7 @@ class SceneMachine(Machine):
         nprov = rng.choice([1, 2, 2])
         fault_mode = rng.choices(["off", "persistent", "interrupt"], weights=[60, 20, 20])[0]
         PY_PROFILES[0] = rng.choice([0.0, 0.0, 0.0, 0.15, 0.4])
+        FLAT_ELECTRONS[0] = rng.random() < 0.15
         spec = {"providers": [], "frames": {}, "plasmas": [], "beams": []}
         for i in range(nprov):
             spec["providers"].append({"id": i, "param": round(1.0 + 0.6 * i + rng.uniform(0, 0.2), 4), "missing": []})
@@ -665,7 +671,11 @@ class SceneMachine(Machine):
             pv = rng.choice(spec["providers"])
             for _ in range(rng.randint(1, 2)):
                 pv["missing"].append(self._gen_missing(rng))
-        cfg = {"spec": spec, "fault_mode": fault_mode, "rays": [gen_ray(rng, spec) for _ in range(6)]}
+        rays = [gen_ray(rng, spec) for _ in range(6)]
+        if rays[4]["bins"] == 21:
+            # the same sight line observed twice with spectral windows that share the lower edge and the bin count only
+            rays[5] = dict(rays[4], max=560.0 if rays[4]["max"] == 700.0 else 700.0)
+        cfg = {"spec": spec, "fault_mode": fault_mode, "rays": rays}
         # swarm: subset of mutator kinds enabled in this run
         kinds = self._kinds(spec)
         enabled = rng.sample(kinds, rng.randint(2, min(len(kinds), 9)))
@@ -703,16 +713,16 @@ class SceneMachine(Machine):
         return [name, el] if name not in ("wavelength",) else [name, el]
 
     def _kinds(self, spec):
-        k = ["p.bfield", "p.electron", "p.comp.add", "p.comp.set", "p.comp.clear", "p.geometry", "p.geomtransform", "p.integrator",
+        k = ["p.bfield", "p.electron", "p.comp.add", "p.comp.set", "p.comp.set.bad", "p.comp.clear", "p.geometry", "p.geomtransform", "p.integrator",
              "p.models.set", "p.models.add", "p.models.clear", "p.models.readd", "p.atomic_data", "p.transform", "p.parent",
              "frame.transform", "p.recreate"]
         if spec["beams"]:
-            k += ["b.set", "b.set", "b.element", "b.atomic_data", "b.plasma", "b.attenuator", "b.att.step", "b.att.clamp_sigma",
+            k += ["b.set", "b.set", "b.element", "b.atomic_data", "b.plasma", "b.attenuator", "b.att.reassign", "b.att.step", "b.att.clamp_sigma",
                   "b.models.set", "b.models.add", "b.models.clear", "b.models.readd", "b.model.line", "b.integrator", "b.transform", "b.parent",
                   "b.recreate", "b.reject"]
         if spec.get("laser"):
             k += ["l.profile.set", "l.profile.set", "l.profile.polarize", "l.profile", "l.spectrum", "l.spectrum.set", "l.plasma",
-                  "l.importance", "l.integrator", "l.models", "l.transform", "l.parent", "l.recreate"]
+                  "l.importance", "l.integrator", "l.models", "l.transform", "l.parent", "l.recreate", "l.reassign"]
         return k
 
     def _gen_mutator(self, rng, spec, kind, nprov):
@@ -722,6 +732,8 @@ class SceneMachine(Machine):
         if kind == "p.comp.clear" and rng.random() < 0.7:
             kind = "p.comp.set"             # an empty composition makes every later observation raise: keep it rare
         op = {"op": kind, "i": pi, "keep": rng.random() < 0.4}
+        if kind.endswith(".recreate"):
+            op["drop_first"] = rng.random() < 0.5
         if kind == "p.bfield":
             op["v"] = [round(c * rng.uniform(1, 4), 3) for c in gen_unit(rng)]
         elif kind == "p.electron":
@@ -743,6 +755,9 @@ class SceneMachine(Machine):
                         newc.append(gen_species(rng, ln["el"], ch))
                         have.add((ln["el"], ch))
             op["species"] = newc
+        elif kind == "p.comp.set.bad":
+            op["species"] = gen_composition(rng)
+            op["junk_at"] = rng.randrange(len(op["species"]) + 1)
         elif kind == "p.geometry":
             op["geometry"] = gen_geometry(rng)
         elif kind == "p.geomtransform":
@@ -802,6 +817,8 @@ class SceneMachine(Machine):
                 op["t"] = gen_transform(rng, toward_origin=True, dist=rng.uniform(1.1, 1.7))
             elif kind == "l.parent":
                 op["to"] = rng.choice(["frame", "world", "frame", "world", "none"])
+            elif kind == "l.reassign":
+                op["what"] = rng.choice(["profile", "spectrum", "plasma"])
         elif kind.startswith("b."):
             if not nb:
                 return None
@@ -959,7 +976,7 @@ class SceneMachine(Machine):
             c.mutated_after_obs = True
 
     def _dispose(self, c, op, obj):
-        if op.get("keep"):
+        if op.get("keep") and obj is not None:
             c.kept.append(obj)
 
     def step(self, c, op, env):
@@ -1091,6 +1108,30 @@ class SceneMachine(Machine):
                 if op.get("keep"):
                     c.kept.append(list(p.composition))
                 p.composition = [mk_species(x) for x in op["species"]]
+            elif k == "p.comp.set.bad":
+                before = list(p.composition)
+                bspecs = list(ps["composition"])
+                objs = [mk_species(x) for x in op["species"]]
+                lst = list(objs)
+                lst.insert(op["junk_at"] % (len(lst) + 1), "not-a-species")
+                env.fault_armed("reject")
+                try:
+                    p.composition = lst
+                except Exception:
+                    env.fault_fired("reject")
+                else:
+                    raise Violation("invalid-accepted", "plasma.composition", "a composition containing a str was accepted")
+                # no atomicity assumed: the configuration is whatever the composition now reports
+                comp = []
+                for o in p.composition:
+                    for cand, spc in list(zip(before, bspecs)) + list(zip(objs, op["species"])):
+                        if o is cand:
+                            comp.append(spc)
+                            break
+                    else:
+                        raise Violation("foreign-species", "plasma.composition", "the composition holds a species nobody gave it")
+                ps["composition"] = comp
+                return "raised"
             elif k == "p.comp.clear":
                 p.composition.clear()
             elif k == "p.geometry":
@@ -1130,6 +1171,11 @@ class SceneMachine(Machine):
             elif k == "p.recreate":
                 old = p
                 old.parent = None
+                if op.get("drop_first") and not op.get("keep"):
+                    s.plasmas[i] = None
+                    del old, p
+                    gc.collect()
+                    old = None
                 new = build_plasma(s, sp, i)
                 s.plasmas[i] = new
                 for j, bs in enumerate(sp["beams"]):
@@ -1138,7 +1184,7 @@ class SceneMachine(Machine):
                 if s.laser is not None and sp["laser"]["plasma"] == i:
                     s.laser.plasma = new
                 self._dispose(c, op, old)
-                del old, p
+                old = p = None
                 env.probe("plasma_node_recreated")
             else:
                 return "noop"
@@ -1173,6 +1219,9 @@ class SceneMachine(Machine):
         elif k == "b.attenuator":
             self._dispose(c, op, b.attenuator)
             b.attenuator = mk_attenuator(op["att"])
+        elif k == "b.att.reassign":
+            b.attenuator = b.attenuator
+            env.probe("same_object_reassigned")
         elif k == "b.att.step":
             b.attenuator.step = op["value"]
         elif k == "b.att.clamp_sigma":
@@ -1214,9 +1263,14 @@ class SceneMachine(Machine):
         elif k == "b.recreate":
             old = b
             old.parent = None
+            if op.get("drop_first") and not op.get("keep"):
+                s.beams[i] = None
+                del old, b
+                gc.collect()
+                old = None
             s.beams[i] = build_beam(s, sp, i)
             self._dispose(c, op, old)
-            del old, b
+            old = b = None
             env.probe("beam_node_recreated")
         else:
             return "noop"
@@ -1272,10 +1326,24 @@ class SceneMachine(Machine):
         elif k == "l.recreate":
             old = l
             old.parent = None
+            if op.get("drop_first") and not op.get("keep"):
+                s.laser = None
+                del old, l
+                gc.collect()
+                old = None
             s.laser = build_laser(s, sp)
             self._dispose(c, op, old)
-            del old, l
+            old = l = None
             env.probe("laser_node_recreated")
+        elif k == "l.reassign":
+            what = op.get("what", "profile")
+            if what == "profile":
+                l.laser_profile = l.laser_profile
+            elif what == "spectrum":
+                l.laser_spectrum = l.laser_spectrum
+            else:
+                l.plasma = l.plasma
+            env.probe("same_object_reassigned")
         else:
             return "noop"
         return "ok"
